@@ -15,7 +15,10 @@ package main
 // Lists (`execute`, `on_error`) reach the documents exactly as spelled in the case: key absent, null, [] or steps.
 // Every mechanism of the catalogue leaves a visible mark when it runs: generic authenticators, remote authorizers
 // and generic contextualizers call a loopback server that records the call; header finalizers append to one
-// upstream header; error handlers redirect to a location naming them. Ids may be shared between kinds.
+// upstream header; error handlers redirect to a location naming them. Ids may be shared between kinds. The cel
+// authorizers are the exception: they only have to be created (their `expressions` are compiled at load time).
+//
+// Operation "cel" (facCel): static result type and compile verdict of CEL expressions in heimdall's environment.
 
 import (
 	"encoding/json"
@@ -29,6 +32,7 @@ import (
 	"strings"
 	"sync"
 
+	"github.com/google/cel-go/cel"
 	"github.com/rs/zerolog"
 	"gopkg.in/yaml.v3"
 
@@ -38,6 +42,7 @@ import (
 	"github.com/dadrus/heimdall/internal/rules"
 	rulecfg "github.com/dadrus/heimdall/internal/rules/config"
 	"github.com/dadrus/heimdall/internal/rules/mechanisms"
+	"github.com/dadrus/heimdall/internal/rules/mechanisms/cellib"
 	"github.com/dadrus/heimdall/internal/rules/provider/kubernetes"
 	"github.com/dadrus/heimdall/internal/rules/provider/kubernetes/api/v1alpha4"
 	"github.com/dadrus/heimdall/internal/rules/rule"
@@ -139,6 +144,11 @@ func facMechanism(base string, decl map[string]any) (string, map[string]any, err
 			"endpoint": map[string]any{"url": base + "/authz/" + id, "method": "POST"},
 			"payload":  "{{ .Subject.ID }}/{{ .Values.v }}",
 			"values":   map[string]any{"v": "base"},
+		}}, nil
+	case "authz/cel":
+		// leaves no mark: every expression the generator lets it keep holds for every probe request
+		return "authorizers", map[string]any{"id": id, "type": "cel", "config": map[string]any{
+			"expressions": []any{map[string]any{"expression": "true"}},
 		}}, nil
 	case "ctx/generic":
 		return "contextualizers", map[string]any{"id": id, "type": "generic", "config": map[string]any{
@@ -557,7 +567,39 @@ func facLoad(rf rule.Factory, r map[string]any, loadPath string, k int) (map[str
 	}}, nil
 }
 
+// facCel is the op "cel" of the family: what heimdall's CEL environment (cellib.Library, the one execution
+// conditions and the expressions of the cel / remote authorizers are compiled in) says about each expression of the
+// case: the static result type its checker computes ("error" when the expression does not parse or does not check)
+// and whether cellib.CompileExpression - the load time check - lets it through.
+func facCel(c map[string]any) (any, error) {
+	env, err := cel.NewEnv(cellib.Library())
+	if err != nil {
+		return nil, err
+	}
+
+	res := []any{}
+
+	for _, e := range getArr(c, "exprs") {
+		expr, _ := e.(string)
+		typ := "error"
+
+		if ast, iss := env.Compile(expr); iss == nil || iss.Err() == nil {
+			typ = ast.OutputType().String()
+		}
+
+		_, cerr := cellib.CompileExpression(env, expr, "false")
+
+		res = append(res, map[string]any{"type": typ, "accepted": cerr == nil})
+	}
+
+	return map[string]any{"cel": res}, nil
+}
+
 func runFactory(c map[string]any) (any, error) {
+	if getStr(c, "op") == "cel" {
+		return facCel(c)
+	}
+
 	facOnce.Do(facSetup)
 
 	env := facGetEnv(c)
